@@ -180,7 +180,7 @@ def cfgs(tier):
         return {'build': build, 'init': {}, 'next': nx,
                 'out': lambda S, I: {'r': S['r%d' % (n - 1)] if n > 0 else I['a']}}
     for w in ([1, 4] if quick else [1, 3, 8]):
-        for n in ((1, 2, 3, 4) if quick else (1, 2, 3, 4, 5, 6)):
+        for n in ((0, 1, 2, 3, 4) if quick else (0, 1, 2, 3, 4, 5, 6)):
             for he, hr in itertools.product((0, 1), (0, 1)):
                 yield 'DelayLine w%d n%d en%d reset%d' % (w, n, he, hr), delay_cfg(w, n, he, hr)
 
